@@ -72,6 +72,7 @@ func keysOf(m map[string]bool) []string {
 }
 
 func c19(c *Ctx) {
+	quotaAssignByState(c)
 	c.R.Rule("FRESH(allocated view): NodeAllocation.getAvailableCPUs hands out a copy of the allocated-CPU details on every return, never the record's own map (callers use it after the lock is released)")
 	freshResult(c, c.Fn(numaPkg, "NodeAllocation", "getAvailableCPUs"), 1, "the scheduling cycle reads the view after the node lock is released while informer events rewrite it, so the view no longer matches the available set returned with it")
 	c.R.Rule("EXCLUSIVE: ReservePod / UnreservePod test the pod's assigned flag and update used under one mutex held in write mode, not released in between (the pod informer handlers change the same state under its read mode)")
